@@ -302,4 +302,12 @@ example : FixOk ⟨true, 8, 4⟩ ∧ (0xf8 : Nat) < 2 ^ (⟨true, 8, 4⟩ : Fmt)
     fixToFloat ⟨true, 8, 4⟩ 0xf8 = .ok (.fin ⟨-8, -4⟩) :=
   ⟨⟨by decide, by decide, by decide, by decide⟩, by decide, by decide +kernel⟩
 
+/-! non-vacuity of the hypotheses of fp_sat / fp_range / fp_lsb / fp_mono: concrete conversions in
+the S3.4 format (0.5 -> 8, -0.51 -> -8, 100 -> 127) that are in range resp. ordered -/
+example : floatToFp ⟨true, 8, 4⟩ ⟨1, -1⟩ = .ok 8 ∧ floatToFp ⟨true, 8, 4⟩ ⟨-131, -8⟩ = .ok (-8) ∧
+    floatToFp ⟨true, 8, 4⟩ ⟨25, 2⟩ = .ok 127 ∧ Dy.le ⟨-131, -8⟩ ⟨1, -1⟩ ∧
+    (⟨true, 8, 4⟩ : Fmt).minV * scaledDen ⟨true, 8, 4⟩ ⟨-131, -8⟩ ≤ scaledNum ⟨true, 8, 4⟩ ⟨-131, -8⟩ ∧
+    scaledNum ⟨true, 8, 4⟩ ⟨-131, -8⟩ ≤ (⟨true, 8, 4⟩ : Fmt).maxV * scaledDen ⟨true, 8, 4⟩ ⟨-131, -8⟩ ∧
+    (⟨true, 8, 4⟩ : Fmt).Ok ∧ FiniteScaled ⟨true, 8, 4⟩ ⟨-131, -8⟩ := by decide +kernel
+
 end Rig.C16
